@@ -178,6 +178,50 @@ theorem accepted_moderation (ev : List Bool) (rate : List Nat) (dflt : List (Opt
   have := hB'.2.2
   omega
 
+/-- **What acceptance means for the end of a subscription** (any trace): after an UNSUBSCRIBE of SID k that was
+    answered 200, an accepted trace contains no further NOTIFY to k — "unsubscribed subscribers receive nothing
+    further" (and no renewal can bring it back: the monitor demands that it be refused). -/
+theorem accepted_unsubscribed_silent (ev : List Bool) (rate : List Nat) (dflt : List (Option Val))
+    (pre mid : List Item) (k : Nat) (a : Option Nat) (b : Option Int)
+    (h : ok ev rate dflt (pre ++ Item.op (.unsubscribe (.known k)) :: Item.obs (.resp 200 a b) :: mid) = true) :
+    ∀ seq t url body, Item.obs (.notify k seq t url body) ∉ mid := by
+  unfold ok at h
+  have h := close_ok_mono _ h
+  rw [List.foldl_append, List.foldl_cons, List.foldl_cons] at h
+  obtain ⟨jp, hjp⟩ : ∃ j, j = pre.foldl Mon.step (Mon.init ev rate dflt) := ⟨_, rfl⟩
+  rw [← hjp] at h
+  have h2 : ((jp.step (.op (.unsubscribe (.known k)))).step (.obs (.resp 200 a b))).ok = true := foldl_ok_mono mid _ h
+  refine Dead.foldl mid _ ?_ h
+  -- the 200 answer marks k dead (any other situation would have been rejected)
+  have e : (jp.step (.op (.unsubscribe (.known k)))).step (.obs (.resp 200 a b))
+      = { (({ jp.close with awaiting := some (.unsubscribe (.known k)) } : Mon).onResp (.unsubscribe (.known k)) 200 a b)
+          with awaiting := none } := rfl
+  rw [e] at h2 ⊢
+  cases hs : jp.close.subs[k]? with
+  | none =>
+    have : (({ jp.close with awaiting := some (.unsubscribe (.known k)) } : Mon).onResp (.unsubscribe (.known k)) 200 a b).ok
+        = false := by simp [Mon.onResp, hs, check, refused]
+    have h2' : (({ jp.close with awaiting := some (.unsubscribe (.known k)) } : Mon).onResp (.unsubscribe (.known k)) 200 a b).ok
+        = true := h2
+    rw [this] at h2'; cases h2'
+  | some s =>
+    cases ha : s.alive with
+    | false =>
+      have : (({ jp.close with awaiting := some (.unsubscribe (.known k)) } : Mon).onResp (.unsubscribe (.known k)) 200 a b).ok
+          = false := by simp [Mon.onResp, hs, ha, check, refused]
+      have h2' : (({ jp.close with awaiting := some (.unsubscribe (.known k)) } : Mon).onResp (.unsubscribe (.known k)) 200 a b).ok
+          = true := h2
+      rw [this] at h2'; cases h2'
+    | true =>
+      have : ({ jp.close with awaiting := some (.unsubscribe (.known k)) } : Mon).onResp (.unsubscribe (.known k)) 200 a b
+          = markDead { jp.close with awaiting := some (.unsubscribe (.known k)) } k := by
+        simp [Mon.onResp, hs, ha]
+      rw [this]
+      have hlt : k < jp.close.subs.length := (List.getElem?_eq_some_iff.mp hs).1
+      exact ⟨{ s with alive := false }, by
+        show (jp.close.subs.modify k _)[k]? = _
+        rw [List.getElem?_modify_eq, hs]; rfl, rfl⟩
+
 /-! ### non-vacuity: a concrete history with a burst inside a moderation interval, a second subscriber whose
     initial delivery is still in flight when a variable changes, an expiry and a timer firing; the theorem's
     hypothesis holds and the trace is the expected, non-trivial one -/
